@@ -14,6 +14,10 @@ round trips on legs of both directions), sparse.FlatLinearOperator / FlatHermiti
 and non-compact flat mode, from_NpcArray / constructor / charge_sector setter / from_guess_with_pipe, flat <-> npc round trips, the tensors
 handed to the user's matvec, eigenvectors), constructors, factorizations, gram_schmidt, the NpcLinearOperator wrappers - with the same
 invariant oracle on every returned object.  The public API of tenpy.linalg is enumerated by reflection and the coverage is recorded in the evidence.
+Coverage audit (harness/c02_cov.py, c02_depth.py, c02_ops2.py): the tensor / leg programs run through kind 'c02x' too (c02_depth.DepthRunner: input classes of the
+operands, additional invariants - internal maps of LegPipes, storage types -, single precision tensors, stratified leg pools); line recording (sys.monitoring) and
+option recording (wrappers) in every runner process of the pure-Python configuration; streams api-options / dipolar-charges / leg-histories; the tables line_coverage,
+option_coverage and input_class_coverage of the evidence: unreached and unclassified = correspondence failure (`coverage hole`).
 """
 import os
 
@@ -162,14 +166,15 @@ def linalg_streams(ctx, rng, seen, all_hist, cov):
                 full = k[3:]
                 for key in {full, full.split('.')[-1]} if stream != 'legs' else {full}:
                     prog_ops[key] = prog_ops.get(key, 0) + v
-    table = c02_linalg.coverage_table(api, api_calls, open(os.path.join(common.VERIF, 'harness', 'npc_gen.py')).read(), prog_ops)
+    gen_source = ''.join(open(os.path.join(common.VERIF, 'harness', f)).read() for f in ('npc_gen.py', 'c02_depth.py', 'c02_ops2.py'))
+    table = c02_linalg.coverage_table(api, api_calls, gen_source, prog_ops)
     unc = sorted(k for k, v in table.items() if v == 'UNCOVERED')
     ctx.cov['public_api_coverage'] = {'modules': ['tenpy.linalg.' + m for m in c02_linalg.API_MODULES], 'names': len(table),
                                       'by_c02x_streams': sum(1 for v in table.values() if v.startswith('c02x')),
                                       'by_programs': sum(1 for v in table.values() if v.startswith('tensor')),
                                       'not_in_C02': sum(1 for v in table.values() if v.startswith('not in C02')), 'uncovered': unc, 'table': table}
     if unc:
-        ctx.notes.append('public names of tenpy.linalg not reached by C02 and not classified: %s' % unc)
+        ctx.fail('correspondence', 'coverage hole (public API): public names of tenpy.linalg neither reached by a C02 stream nor classified: %s' % unc, None)
     return api_calls
 
 
@@ -242,8 +247,15 @@ def main(ctx):
         'C02 c02x streams: charge_sector=None on legs that are not sorted and bunched IS generated (flat_to_npc: when it raises in its own sanity check the tensor it '
         'built is fetched with tenpy.tools.optimization.temporary_level(skip_arg_checks), the level at which it is returned, and judged by the invariant oracle); '
         'svd(full_matrices=True) IS generated for the consistency of the factors (exactness / unitarity: C05); float32 / complex64 tensors in 30% of the linalg cases',
-        'C02 c02x streams not generated: compact mode for a sector without states, speigs / orthogonal_columns (property C05, F05.6), from_qdict '
+        'C02 c02x streams not generated: compact mode for a sector without states, from_qdict '
         'with empty blocks, BoostNpcLinearOperator.to_matrix, legs with empty blocks in the operator streams (tensordot over empty blocks: C01)',
+        'C02 coverage tables (evidence keys line_coverage / option_coverage / input_class_coverage): measured in the pure-Python configuration only (the compiled extension replaces '
+        'the workers, its lines cannot be recorded); unreached lines inside raise / assert statements and statement lists ending in raise are error paths (no object returned); the '
+        'classified exclusions carry their reason in harness/c02_cov.EXCLUDED (HDF5: C17; functions returning strings / numbers / bools / ndarrays; dead private helpers; the '
+        'LAPACK fallback of _svd_worker: C05); Array.add_charge(qtotal=None) is CALLED by the api-options stream and its raise on every input is recorded (statistic add_charge(qtotal=None):raises)',
+        'C02 api-options stream at optimization level skip_arg_checks (a sixth of the cases): the tensors\' own test_sanity() is off there, the recomputation alone decides; '
+        'DipolarChargeInfo.shift_charges with a sublattice component du != 0 is the documented NotImplementedError (expected, nothing returned); change_charge is generated for '
+        'new_qmod dividing the old one (or any new_qmod for U(1)) only: another modulus does not preserve the charge rule',
     ]
     return ctx.finish(RULE, 'theorems of coq/Props/C02.v (WF closed under the modelled operations, documented qtotal); boolean WF of the model evaluated on the storage produced by '
                       'the implementation; invariant oracle after every step on every live object in two configurations')
@@ -253,4 +265,6 @@ RULE = ('histories: the programs of C01 with 2-10 (quick) / 2-25 (thorough) step
         'object is checked.  One case = one history; evaluations counts steps; non-trivial when some step produced a tensor with a non-zero entry; '
         'distinct = distinct (seed, operation sequence).  legs: 1-5 LegCharge/LegPipe method calls on random legs.  '
         'c02x streams (leg-lookups, flat-operator, flat-operator-pipe, linalg-functions): one case = one random leg / operator / matrix with all its '
-        'sectors and modes; evaluations counts the API calls groups; non-trivial when the leg / sector is not empty.')
+        'sectors and modes; evaluations counts the API calls groups; non-trivial when the leg / sector is not empty.  api-options: one case = one charge structure + leg pool '
+        '(class of the first leg forced by the case index) on which every item of harness/c02_ops2.APIOPTS_ITEMS runs; dipolar-charges: one DipolarChargeInfo + shift vector; '
+        'leg-histories: 3-7 leg-returning calls with their options, every returned leg used in tensors.')
